@@ -1,0 +1,94 @@
+//go:build verif
+
+// Contracts for rpc_queue.go (property C15). Comment-only file: read by /verif/gocv, which
+// generates verification conditions from the SSA of the real functions and discharges them
+// with SMT solvers. Nothing here is compiled into the package.
+
+package pubsub
+
+//@ spec fn qsep(q *priorityQueue) bool = arr(q.normal) != arr(q.priority) || arr(q.normal) == nil
+//@ spec fn qlen(q *priorityQueue) int = len(q.normal) + len(q.priority)
+
+//@ func (*priorityQueue).Len
+//@   property C15
+//@   modifies nothing
+//@   ensures len: result == len(q.normal) + len(q.priority)
+
+//@ func (*priorityQueue).NormalPush
+//@   property C15
+//@   requires sep: qsep(q)
+//@   modifies q.normal, elems(q.normal)
+//@   ensures len: len(q.normal) == old(len(q.normal)) + 1
+//@   ensures last: q.normal[old(len(q.normal))] == rpc
+//@   ensures keep: forall i int :: 0 <= i && i < old(len(q.normal)) ==> q.normal[i] == old(q.normal[i])
+//@   ensures other-len: len(q.priority) == old(len(q.priority))
+//@   ensures other: forall i int :: 0 <= i && i < len(q.priority) ==> q.priority[i] == old(q.priority[i])
+//@   ensures sep: qsep(q)
+
+//@ func (*priorityQueue).PriorityPush
+//@   property C15
+//@   requires sep: qsep(q)
+//@   modifies q.priority, elems(q.priority)
+//@   ensures len: len(q.priority) == old(len(q.priority)) + 1
+//@   ensures last: q.priority[old(len(q.priority))] == rpc
+//@   ensures keep: forall i int :: 0 <= i && i < old(len(q.priority)) ==> q.priority[i] == old(q.priority[i])
+//@   ensures other-len: len(q.normal) == old(len(q.normal))
+//@   ensures other: forall i int :: 0 <= i && i < len(q.normal) ==> q.normal[i] == old(q.normal[i])
+//@   ensures sep: qsep(q)
+
+//@ func (*priorityQueue).Pop
+//@   property C15
+//@   requires sep: qsep(q)
+//@   modifies q.normal, q.priority, elems(q.normal), elems(q.priority)
+//@   ensures urgent-first: old(len(q.priority)) > 0 ==> result == old(q.priority[0])
+//@   ensures urgent-rest: old(len(q.priority)) > 0 ==> len(q.priority) == old(len(q.priority)) - 1 &&
+//@        (forall i int :: 0 <= i && i < len(q.priority) ==> q.priority[i] == old(q.priority[i+1]))
+//@   ensures urgent-keeps-normal: old(len(q.priority)) > 0 ==> len(q.normal) == old(len(q.normal)) &&
+//@        (forall i int :: 0 <= i && i < len(q.normal) ==> q.normal[i] == old(q.normal[i]))
+//@   ensures normal-first: old(len(q.priority)) == 0 && old(len(q.normal)) > 0 ==> result == old(q.normal[0])
+//@   ensures normal-rest: old(len(q.priority)) == 0 && old(len(q.normal)) > 0 ==> len(q.normal) == old(len(q.normal)) - 1 &&
+//@        len(q.priority) == 0 && (forall i int :: 0 <= i && i < len(q.normal) ==> q.normal[i] == old(q.normal[i+1]))
+//@   ensures empty: old(len(q.priority)) == 0 && old(len(q.normal)) == 0 ==> result == nil && len(q.normal) == 0 && len(q.priority) == 0
+//@   ensures sep: qsep(q)
+
+// ---- rpcQueue: a monitor on queueMu ----
+
+//@ spec fn rqlen(q *rpcQueue) int = len(q.queue.normal) + len(q.queue.priority)
+
+// qsame: the protected state equals the state at the linearisation point (last acquisition of
+// queueMu or return from Cond.Wait).
+//@ spec fn qsame(q *rpcQueue) bool = q.closed == lin(q.closed) &&
+//@        len(q.queue.normal) == lin(len(q.queue.normal)) && len(q.queue.priority) == lin(len(q.queue.priority)) &&
+//@        (forall i int :: 0 <= i && i < len(q.queue.normal) ==> q.queue.normal[i] == lin(q.queue.normal[i])) &&
+//@        (forall i int :: 0 <= i && i < len(q.queue.priority) ==> q.queue.priority[i] == lin(q.queue.priority[i]))
+
+//@ monitor rpcQueue.queueMu
+//@   protects closed, queue, elems(queue.normal), elems(queue.priority)
+//@   cond dataAvailable spaceAvailable
+//@   invariant cap: rqlen(self) <= self.maxSize
+//@   invariant sep: qsep(self.queue)
+
+//@ func (*rpcQueue).push
+//@   property C15
+//@   modifies monitor(rpcQueue.queueMu)
+//@   loop 1 invariant held: held(q.queueMu) && !q.closed && rqlen(q) <= q.maxSize && qsep(q.queue)
+//@   loop 1 invariant same: qsame(q)
+//@   loop 1 invariant nosignal: notified(q.dataAvailable) == old(notified(q.dataAvailable))
+//@   ensures full: !block && lin(rqlen(q)) == q.maxSize ==> result == ErrQueueFull
+//@   ensures full-unchanged: result != nil ==> result == ErrQueueFull && !block && lin(rqlen(q)) == q.maxSize && qsame(q)
+//@   ensures not-closed: result == nil ==> !lin(q.closed)
+//@   ensures had-space: result == nil ==> lin(rqlen(q)) < q.maxSize
+//@   ensures cap: rqlen(q) <= q.maxSize
+//@   ensures urgent: result == nil && urgent ==> len(q.queue.priority) == lin(len(q.queue.priority)) + 1 &&
+//@        q.queue.priority[lin(len(q.queue.priority))] == rpc &&
+//@        (forall i int :: 0 <= i && i < lin(len(q.queue.priority)) ==> q.queue.priority[i] == lin(q.queue.priority[i])) &&
+//@        len(q.queue.normal) == lin(len(q.queue.normal)) &&
+//@        (forall i int :: 0 <= i && i < len(q.queue.normal) ==> q.queue.normal[i] == lin(q.queue.normal[i]))
+//@   ensures normal: result == nil && !urgent ==> len(q.queue.normal) == lin(len(q.queue.normal)) + 1 &&
+//@        q.queue.normal[lin(len(q.queue.normal))] == rpc &&
+//@        (forall i int :: 0 <= i && i < lin(len(q.queue.normal)) ==> q.queue.normal[i] == lin(q.queue.normal[i])) &&
+//@        len(q.queue.priority) == lin(len(q.queue.priority)) &&
+//@        (forall i int :: 0 <= i && i < len(q.queue.priority) ==> q.queue.priority[i] == lin(q.queue.priority[i]))
+//@   ensures signals: result == nil ==> notified(q.dataAvailable) == old(notified(q.dataAvailable)) + 1
+//@   ensures closed-unchanged: q.closed == lin(q.closed)
+//@   ensures released: !held(q.queueMu)
